@@ -271,8 +271,8 @@ func x2Configs(prop, tier string) []*X2Config {
 				for _, g := range []struct {
 					n string
 					g map[string][]string
-				}{{"one", graphOne}, {"chain", graphChain}, {"no-tasks", map[string][]string{}}} {
-					if g.n == "no-tasks" && (conc == 2 || v.n != "plain") {
+				}{{"one", graphOne}, {"chain", graphChain}, {"no-tasks", map[string][]string{}}, {"chain-against-name-order", map[string][]string{"a": {"b"}, "b": nil}}} {
+					if (g.n == "no-tasks" || g.n == "chain-against-name-order") && (conc == 2 || v.n != "plain") {
 						continue
 					}
 					pc := v.c
@@ -285,6 +285,34 @@ func x2Configs(prop, tier string) []*X2Config {
 					res = append(res, &X2Config{Name: "C10/" + cfgName(pc), Cfgs: []PipeCfg{pc}, Depth: dd, Sbad: true, FailOK: true, Cancel: true, Symmetry: false, AdvSteps: adv, Restart: true, Props: props()})
 				}
 			}
+		}
+	}
+	if prop == "C10" {
+		// a pipeline removed by a reload, with jobs of it in every state: what is reported before the restart is what is
+		// reported after it
+		with := mkDefs(map[string]PipeCfg{"p": {Conc: 1, QL: -1, Graph: graphOne}, "z": {Conc: 1, QL: -1, Graph: graphOne}})
+		without := mkDefs(map[string]PipeCfg{"z": {Conc: 1, QL: -1, Graph: graphOne}})
+		res = append(res, &X2Config{Name: "C10/pipeline-removed-by-reload", DefsOverride: []*definitionPipelinesDef{with, without}, Pipes: []string{"p"},
+			Depth: depth(5, 6), Cancel: true, FailOK: true, Reload: true, Symmetry: false, Restart: true, Props: props()})
+	}
+	if prop == "C12" {
+		// from a state with one running and two waiting jobs of the single-slot pipeline: cancels and saves in every order
+		for _, count := range []int{1, 2} {
+			q := PipeCfg{Conc: 1, QL: -1, Graph: graphOne, RetCount: count}
+			res = append(res, &X2Config{Name: fmt.Sprintf("C12/count=%d from one running, two waiting", count), DefsOverride: []*definitionPipelinesDef{mkDefs(map[string]PipeCfg{"q": q})}, Pipes: []string{"q"},
+				Prefix: []XEvent{{Kind: "S", P: "q"}, {Kind: "S", P: "q"}, {Kind: "S", P: "q"}}, Depth: depth(4, 5), Cancel: true, FailOK: true, Save: true, Symmetry: false, NoDedup: true, Props: props("C12")})
+		}
+	}
+	if prop == "C16" {
+		// the replace strategy builds the new job next to the one it replaces: the reload must still govern it
+		base := PipeCfg{Conc: 1, QL: 1, Replace: true, Graph: graphChain, Env: map[string]string{"E": "1"}}
+		for _, v := range []struct {
+			n string
+			f func(c *PipeCfg)
+		}{{"script", func(c *PipeCfg) { c.Script = map[string][]string{"a": {"other"}} }}, {"task-added", func(c *PipeCfg) { c.Graph = map[string][]string{"a": nil, "b": {"a"}, "c": {"b"}} }}, {"pipe-env", func(c *PipeCfg) { c.Env = map[string]string{"E": "2"} }}} {
+			o := base
+			v.f(&o)
+			res = append(res, &X2Config{Name: "C16/replace-strategy/" + v.n, Cfgs: []PipeCfg{base, o}, Depth: depth(6, 7), Reload: true, Symmetry: true, AdvSteps: adv, Drain: true, Props: props("C16", "C02")})
 		}
 	}
 	for _, c := range res {
